@@ -181,7 +181,14 @@ def marshal_loads(data):
 
 
 # ---- serpent (data types only) ------------------------------------------------------------------
-def sp_pack(o):
+def sp_pack(o, bytes_repr=False):
+    if bytes_repr:
+        global _SP_BYTES_REPR
+        _SP_BYTES_REPR = True
+        try:
+            return sp_pack(o)
+        finally:
+            _SP_BYTES_REPR = False
     if o is None or isinstance(o, (bool, int, float, complex, str)):
         return o
     if isinstance(o, BaseException):
@@ -189,6 +196,8 @@ def sp_pack(o):
         return {"__class__": type(o).__module__ + "." + type(o).__name__, "__exception__": True,
                 "args": sp_pack(tuple(o.args)), "attributes": sp_pack(dict(vars(o)))}
     if isinstance(o, (bytes, bytearray, memoryview)):
+        if _SP_BYTES_REPR:
+            return bytes(o)        # bytes_repr=True: written as a bytes literal, read back as bytes
         return {"data": base64.b64encode(bytes(o)).decode("ascii"), "encoding": "base64"}
     if isinstance(o, tuple):
         return tuple(sp_pack(x) for x in o)
@@ -199,6 +208,8 @@ def sp_pack(o):
             return ()                      # serpent writes an empty set as an empty tuple
         for x in o:
             # serpent accepts only "primitive hashable" members (learned from the native differential runs)
+            if _SP_BYTES_REPR and isinstance(x, bytes):
+                continue                   # with bytes_repr=True a bytes member is a primitive literal
             if x is None or isinstance(x, (uuid.UUID, datetime.date, bytes, bytearray, memoryview, tuple, frozenset)):
                 raise TypeError("one of the keys in a dict or set is not of a primitive hashable type")
         return set(sp_pack(x) for x in o)
@@ -219,8 +230,11 @@ def sp_pack(o):
     raise TypeError("serpent model: type %s is outside the modelled data domain" % type(o).__name__)
 
 
+_SP_BYTES_REPR = False
+
+
 def serpent_dumps(o, indent=False, module_in_classname=False, bytes_repr=False, **kw):
-    return Wire("serpent", sp_pack(o))
+    return Wire("serpent", sp_pack(o, bool(bytes_repr)))
 
 
 def serpent_loads(data):
